@@ -346,13 +346,13 @@ func GenCluster(t *rapid.T, o GenOpts) ClusterT {
 // ---- a policy manager on strict fakes ----
 
 type Sim struct {
-	PM       *policy.PolicyManager
-	IPT      *nf.IPTables
-	Sets     *nf.IPSet
-	podIdx   cache.Indexer
-	nsIdx    cache.Indexer
-	polIdx   cache.Indexer
-	Kube     *k8sfake.Clientset
+	PM     *policy.PolicyManager
+	IPT    *nf.IPTables
+	Sets   *nf.IPSet
+	podIdx cache.Indexer
+	nsIdx  cache.Indexer
+	polIdx cache.Indexer
+	Kube   *k8sfake.Clientset
 }
 
 func newIndexer() cache.Indexer {
@@ -447,3 +447,7 @@ func (s *Sim) ForeignState() string {
 	out += s.Sets.Dump(func(n string) bool { return !isGLX(n) })
 	return out
 }
+
+// ToK8s converts the model objects (exported for the robustness checks).
+func (p PodT) ToK8s() *corev1.Pod                 { return p.toK8s() }
+func (p PolicyT) ToK8s() *networkv1.NetworkPolicy { return p.toK8s() }
